@@ -13,7 +13,8 @@ ATTRS = ["", "", ' style="color:red"', ' class="noprint"', ' class="navbox"', ' 
          ' style="overflow:auto;height:200px"', ' style="position:absolute"', ' style="display:none"', " colspan=2", " rowspan=3",
          ' align="right"', ' width="50%"', ' style="float:right;width:20em"', ' name="n1"', ' group="g"', " lang=python",
          ' class="wikitable sortable"', ' border="1"', " x", ' a="b" c=\'d\' e', ' style="font-size:200%"', ' class="editlink"',
-         ' style="height:100px;overflow:scroll"', ' class="metadata"', ' style="visibility:hidden"', ' class="thumb tright"']
+         ' style="height:100px;overflow:scroll"', ' \x7fUNIQ-ref-0-0123abcd-QINU\x7f', ' title="\x7fUNIQ-nowiki-1-abcdef01-QINU\x7f"',
+         ' x=&#99999999999;', ' title="<b>"', ' style="&amp;"', ' title="[[A]]"', ' title="{{T}}"', " title=\"''x''\"", ' a=\x00', ' \ud7ff=1', ' class="metadata"', ' style="visibility:hidden"', ' class="thumb tright"']
 
 MARKUP = {
     "link": ["[[File:a.png]]", "[[File:b.png|thumb|cap]]", "[[Image:c.jpg|20px]]", "[[File:d.svg|frame|left|x]]", "[[", "]]", "[[A]]", "[[A|b]]", "[[:Category:X]]", "[[Category:X]]", "[[de:X]]", "[[:en:X]]", "[[File:a.png|", "[[Image:x.jpg|thumb|left|",
